@@ -123,6 +123,26 @@ def discriminator_probe(R, aspects):
                         other = outcome(lambda: deserialize(tp, d, **dict(kw, no_copy=not no_copy)))
                         if repr(other) != repr(first):
                             R.violation("the result depends on no_copy (discriminated union)", dict(info, options=kw))
+                    if "coerce" in aspects:
+                        # every datum accepted in strict mode is accepted with coerce=True, with an equal result; data whose
+                        # leaves are written as numeric strings are accepted too, with the strict result of the plain datum
+                        co = outcome(lambda: deserialize(tp, copy.deepcopy(d), coerce=True, **kw))
+                        if first[0] == "ok" and (co[0] != "ok" or co[1] != first[1]):
+                            R.violation(f"a datum accepted in strict mode gives {co!r} with coerce=True (discriminated union)",
+                                        dict(info, options=kw, strict=repr(first)))
+                        elif first[0] == "err" and co[0] == "raise":
+                            R.violation(f"deserialize with coerce=True raised {co[1]} (discriminated union)", dict(info, options=kw))
+                        if first[0] == "ok" and isinstance(d, dict):
+                            def strs(x):
+                                if isinstance(x, dict):
+                                    return {k: strs(y) for k, y in x.items()}
+                                if isinstance(x, list):
+                                    return [strs(y) for y in x]
+                                return str(x) if type(x) is int else x
+                            co2 = outcome(lambda: deserialize(tp, strs(d), coerce=True, **kw))
+                            if co2[0] != "ok" or co2[1] != first[1]:
+                                R.violation(f"integers written as strings give {co2!r} with coerce=True where the plain datum gives "
+                                            f"{first[1]!r} (discriminated union)", dict(info, options=kw))
                     if "dispatch" in aspects and first[0] == "ok":
                         v = first[1]
                         out = outcome(lambda: serialize(tp, v, additional_properties=addp))
@@ -140,6 +160,184 @@ def discriminator_probe(R, aspects):
                                     R.violation(f"serialize changed the value of {k!r}: {out[1][k]!r} instead of {x!r}", info)
     finally:
         pyrun.drop_module(mod)
+        apischema.cache.reset()
+
+
+DISC_RT_SRC = DISC_SRC + '''
+import re
+from typing import Any, Dict
+from apischema.metadata import properties
+
+PT = Annotated[Union[A, B], discriminator("pet_type")]
+PT3 = Annotated[Union[A, T, Slow], discriminator("pet_type", {"a_tag": A, "t_tag": T, "slow": Slow})]
+
+@dataclass
+class Tagged:                 # declares the discriminator property itself, under a name the aliaser changes
+    pet_type: str
+    n_legs: int = 4
+
+PT4 = Annotated[Union[A, Tagged], discriminator("pet_type", {"A": A, "tagged": Tagged})]
+
+@dataclass
+class Open:                   # keeps its additional properties: the discriminator property is not one of them
+    extra: Dict[str, Any] = field(default_factory=dict, metadata=properties)
+
+@dataclass
+class Pat:
+    pat: Dict[str, Any] = field(default_factory=dict, metadata=properties(pattern=re.compile("^p")))
+
+PT5 = Annotated[Union[Open, Pat], discriminator("pet_type")]
+
+@discriminator("node_kind")
+@dataclass
+class Base2:
+    pass
+
+@dataclass
+class X2(Base2):
+    x_val: int = 0
+
+@dataclass
+class Y2(Base2):
+    y_val: str = ""
+
+@dataclass
+class Y3(Y2):                 # a grandchild: its instances are Y2 instances too
+    z_val: int = 0
+
+PT6 = Annotated[Union[Y2, Y3, X2], discriminator("pet_type")]
+
+@dataclass
+class Holder2:
+    first_pet: PT
+    more_pets: List[PT3] = field(default_factory=list)
+    base_node: Optional[Base2] = None
+'''
+
+
+def discriminator_round_trip_probe(R):
+    """C05 over discriminated unions (Annotated and class-level, discriminator property declared or not) x aliasers: the value
+    deserialized from a datum serializes to data that deserialize back to it (also through json), and that data holds every
+    property of the datum with its value"""
+    import json as _json
+    from typing import Optional
+    pyrun.ensure_repo_on_path()
+    import apischema.cache
+    from apischema import deserialize, serialize
+    from apischema.utils import to_camel_case
+    apischema.cache.reset()
+    mod = pyrun.exec_module(DISC_RT_SRC)
+    aliasers = [("identity", None), ("camelCase", to_camel_case), ("upper", str.upper), ("prefix", lambda s: "k_" + s)]
+
+    def aliased(d, al):
+        if isinstance(d, dict):
+            return {al(k): aliased(x, al) for k, x in d.items()}
+        if isinstance(d, list):
+            return [aliased(x, al) for x in d]
+        return d
+    try:
+        cases = [c for c in discriminator_cases(mod)] + [
+            (mod.PT, {"pet_type": "A", "a": 1}), (mod.PT, {"pet_type": "B", "b": "x", "c": True}),
+            (mod.PT3, {"pet_type": "a_tag", "a": 2}), (mod.PT3, {"pet_type": "t_tag", "type": "q", "n": 3}),
+            (mod.PT3, {"pet_type": "slow", "S": 4}),
+            (mod.PT4, {"pet_type": "tagged", "n_legs": 3}), (mod.PT4, {"pet_type": "A", "a": 0}),
+            (mod.PT5, {"pet_type": "Open"}), (mod.PT5, {"pet_type": "Open", "zz": 1}), (mod.PT5, {"pet_type": "Pat"}),
+            (mod.PT5, {"pet_type": "Pat", "pq": 2}),
+            (mod.Base2, {"node_kind": "X2", "x_val": 1}), (mod.Base2, {"node_kind": "Y2"}),
+            (Union[mod.X2, mod.Y2], {"node_kind": "Y2", "y_val": "q"}),
+            (mod.Holder2, {"first_pet": {"pet_type": "A", "a": 1},
+                           "more_pets": [{"pet_type": "t_tag", "type": "z", "n": 1}, {"pet_type": "a_tag", "a": 0}],
+                           "base_node": {"node_kind": "X2", "x_val": 5}}),
+        ]
+        for tp, d in cases:
+            for aname, al in aliasers:
+                kw = {} if al is None else {"aliaser": al}
+                datum = d if al is None else aliased(d, al)
+                info = dict(source=DISC_RT_SRC, type=str(tp), data=repr(datum), aliaser=aname)
+                first = outcome(lambda: deserialize(tp, copy.deepcopy(datum), **kw))
+                if first[0] != "ok":
+                    if first[0] == "raise":
+                        R.violation(f"deserialize of a discriminated union raised {first[1]}", info)
+                    continue                                    # the invalid data of the shared list
+                R.count("discriminator_round_trip:" + aname)
+                v = first[1]
+                out = outcome(lambda: serialize(tp, v, **kw))
+                if out[0] != "ok":
+                    R.violation(f"serialize of a discriminated union value failed: {out[1]}", info)
+                    continue
+                for label, data2 in (("", out[1]), (" through json", _json.loads(_json.dumps(out[1])))):
+                    back = outcome(lambda: deserialize(tp, copy.deepcopy(data2), **kw))
+                    if back[0] != "ok" or back[1] != v:
+                        R.violation(f"a discriminated union value does not round-trip{label} (aliaser {aname}): serialize gives "
+                                    f"{out[1]!r}, which deserializes to {back[1]!r}", dict(info, value=repr(v)))
+                        break
+                else:
+                    # dual direction: the serialized data hold every property of the accepted datum
+                    def covered(a, b):
+                        if isinstance(a, dict) and isinstance(b, dict):
+                            return all(k in b and covered(x, b[k]) for k, x in a.items())
+                        if isinstance(a, list) and isinstance(b, list):
+                            return len(a) == len(b) and all(covered(x, y) for x, y in zip(a, b))
+                        return a == b
+                    if not covered(datum, out[1]):
+                        R.violation(f"serialize(deserialize(d)) does not hold d (discriminated union, aliaser {aname}): "
+                                    f"{datum!r} became {out[1]!r}", info)
+        # value first: values no datum above produces (an empty additional-properties dict next to the discriminator)
+        values = [(mod.PT5, mod.Open()), (mod.PT5, mod.Open({"zz": 1})), (mod.PT5, mod.Pat()), (mod.PT5, mod.Pat({"pq": [1]})),
+                  (mod.PT4, mod.Tagged("tagged", 3)), (mod.PT, mod.B("x", True)), (mod.Base2, mod.Y2("q")),
+                  (mod.Base2, mod.Y3("q", 3)), (mod.PT6, mod.Y3("r", 4)), (mod.PT6, mod.Y2("s")), (Optional[mod.Base2], mod.Y3()),
+                  (mod.Holder2, mod.Holder2(mod.A(1), [mod.Slow(2), mod.T("t", 1)], mod.X2(7)))]
+        for tp, v in values:
+            for aname, al in aliasers:
+                kw = {} if al is None else {"aliaser": al}
+                info = dict(source=DISC_RT_SRC, type=str(tp), value=repr(v), aliaser=aname)
+                R.count("discriminator_round_trip_value:" + aname)
+                out = outcome(lambda: serialize(tp, v, **kw))
+                if out[0] != "ok":
+                    R.violation(f"serialize of a discriminated union value failed: {out[1]}", info)
+                    continue
+                back = outcome(lambda: deserialize(tp, _json.loads(_json.dumps(out[1])), **kw))
+                if back[0] != "ok" or back[1] != v:
+                    R.violation(f"a discriminated union value does not round-trip (aliaser {aname}): {v!r} serializes to {out[1]!r}, "
+                                f"which deserializes to {back[1]!r}", info)
+    finally:
+        pyrun.drop_module(mod)
+        apischema.cache.reset()
+
+
+def literal_equal_values_probe(R):
+    """Literal types holding values that are equal for Python but distinct as JSON (1 / True, 0 / False): each listed value is
+    accepted as itself, with its own class; nothing else is"""
+    pyrun.ensure_repo_on_path()
+    import apischema.cache
+    from typing import List, Literal, Optional
+    from apischema import deserialize, serialize, ValidationError
+    apischema.cache.reset()
+    try:
+        for values in ((1, True), (0, False, "a"), (False, 0), (1, "1", True), (2, True)):
+            T = Literal[values]            # noqa
+            for wrap, mk in ((lambda t: t, lambda d: d), (lambda t: List[t], lambda d: [d]), (lambda t: Optional[t], lambda d: d)):
+                for d in (0, 1, 2, True, False, "a", "1", 1.0, None):
+                    R.count("literal_equal_values_probe")
+                    want = any(type(d) is type(v) and d == v for v in values) or (d is None and wrap(int) == Optional[int])
+                    info = dict(type=f"{wrap(T)}", data=repr(mk(d)))
+                    try:
+                        got = deserialize(wrap(T), mk(d))
+                    except ValidationError:
+                        if want:
+                            R.violation(f"deserialize({wrap(T)}, {mk(d)!r}) rejects a listed value", info)
+                        continue
+                    except Exception as e:   # noqa
+                        R.violation(f"deserialize({wrap(T)}, {mk(d)!r}) raised {type(e).__name__}: {e}", info)
+                        continue
+                    inner = got[0] if isinstance(got, list) else got
+                    if not want:
+                        R.violation(f"deserialize({wrap(T)}, {mk(d)!r}) accepts a value that is not listed: {got!r}", info)
+                    elif type(inner) is not type(d) or inner != d:
+                        R.violation(f"deserialize({wrap(T)}, {mk(d)!r}) = {got!r}: not the listed value itself", info)
+                    elif serialize(wrap(T), got) != mk(d) or type(serialize(T, inner)) is not type(d):
+                        R.violation(f"serialize({wrap(T)}, {got!r}) = {serialize(wrap(T), got)!r} differs from the datum {mk(d)!r}", info)
+    finally:
         apischema.cache.reset()
 
 
@@ -710,6 +908,42 @@ def discriminator_schema_probe(R, aspects):
                                 f"{std} (standard semantics) / {oas} (with the OpenAPI meaning of discriminator)", dict(info, schema=doc))
                     if len(R.violations) > 5:
                         return
+        if "ser_agree" in aspects:
+            from apischema import serialize
+            from apischema.json_schema import serialization_schema
+            from apischema.utils import to_camel_case
+            for tp, d in discriminator_cases(mod):
+                for aname, al in (("identity", None), ("camelCase", to_camel_case), ("prefix", lambda s: "k_" + s)):
+                    kw = {} if al is None else {"aliaser": al}
+                    try:
+                        v = deserialize(tp, copy.deepcopy(d))
+                    except ValidationError:
+                        continue
+                    for addp in (False, True):
+                        R.count("discriminator_ser_schema")
+                        info = dict(source=DISC_SRC, type=str(tp), value=repr(v), additional_properties=addp, aliaser=aname)
+                        try:
+                            out = serialize(tp, v, additional_properties=addp, **kw)
+                            doc = serialization_schema(tp, additional_properties=addp, **kw)
+                        except Exception as e:   # noqa
+                            R.violation(f"serialize / serialization_schema of a discriminated union raised {type(e).__name__}: {e}", info)
+                            continue
+                        try:
+                            std = jsonschema.Draft202012Validator(doc).is_valid(out)
+                        except RecursionError:
+                            std = "does not terminate"
+                        if std is True:
+                            continue
+                        try:
+                            oas = jsonschema.Draft202012Validator(discriminator_aware(doc)).is_valid(out)
+                        except Exception as e:   # noqa
+                            oas = f"{type(e).__name__}: {e}"
+                        if oas is True and R.known_match("ser-discriminator-keyword-semantics"):
+                            continue
+                        R.violation(f"serialize output {out!r} of a discriminated union is invalid against serialization_schema: {std} "
+                                    f"(standard semantics) / {oas} (with the OpenAPI meaning of discriminator)", dict(info, schema=doc, output=out))
+                        if len(R.violations) > 5:
+                            return
     finally:
         pyrun.drop_module(mod)
         apischema.cache.reset()
@@ -1126,6 +1360,161 @@ def stdlib_round_trip_probe(R, aspects=("round_trip", "json", "no_copy")):
                 if "no_copy" in aspects and outs.get("no_copy") != outs.get("copy"):
                     R.violation(f"serialize({label}, {wv!r}) depends on no_copy: {outs.get('no_copy')!r} vs {outs.get('copy')!r}",
                                 dict(type=label, value=repr(wv)))
+                if "no_copy" in aspects and "copy" in outs:
+                    # deserialization of the serialized data must not depend on no_copy either (converted keys / items)
+                    try:
+                        j2 = json.loads(json.dumps(outs["copy"]))
+                        b1, b2 = deserialize(W, copy.deepcopy(j2), no_copy=True), deserialize(W, copy.deepcopy(j2), no_copy=False)
+                        if not (b1 == b2 and same_classes(b1, b2)):
+                            R.violation(f"deserialize({label}, {j2!r}) depends on no_copy: {b1!r} vs {b2!r}", dict(type=label, data=repr(j2)))
+                    except (TypeError, ValueError):
+                        pass          # not JSON text (Decimal keys ...): covered by the round-trip aspect
+                    except Exception as e:   # noqa
+                        R.violation(f"deserialize({label}, ...) raised {type(e).__name__}: {str(e)[:150]}", dict(type=label, value=repr(wv)))
+    if "round_trip" in aspects:
+        # Decimal goes through a JSON number (a double): values that are no dyadic rational come back different
+        for txt in ("0.1", "3.14", "-2.675", "1E-7", "123456789.123456789123"):
+            v = decimal.Decimal(txt)
+            R.count("stdlib_round_trip_probe:decimal")
+            try:
+                out = serialize(decimal.Decimal, v)
+                back = deserialize(decimal.Decimal, json.loads(json.dumps(out)))
+            except Exception as e:
+                R.violation(f"Decimal({txt!r}) does not go through serialize / deserialize: {type(e).__name__}: {e}", dict(value=txt))
+                continue
+            if back != v and not (isinstance(out, float) and R.known_match("decimal-through-float")):
+                R.violation(f"deserialize(Decimal, serialize(Decimal, Decimal({txt!r}))) = {back!r}", dict(value=txt, output=repr(out)))
+
+
+def stdlib_invalid_probe(R):
+    """standard-library converted types on malformed data: only ValidationError may come out (C03)"""
+    import datetime
+    import decimal
+    import ipaddress
+    import pathlib
+    import re
+    import uuid
+    from typing import Dict, List, Optional, Pattern
+    pyrun.ensure_repo_on_path()
+    from apischema import deserialize, ValidationError
+    types = [uuid.UUID, datetime.date, datetime.datetime, datetime.time, decimal.Decimal, bytes, pathlib.Path,
+             ipaddress.IPv4Address, ipaddress.IPv6Address, ipaddress.IPv4Network, ipaddress.IPv6Interface, Pattern]
+    bad = ["", "a", "abc", "\u00e9", "YQ= =", "1.x", "2020-13-45", "25:61:00", "2020-01-01T99", "(", "[a", "999.1.1.1", "1.2.3.4/99",
+           "::g", "0" * 40, "nan", " ", "\x00", 1, -1, 1.5, True, None, [], {}, [1], {"a": 1}, float("inf"), float("nan"), 10 ** 400]
+    for T in types:
+        for wrap, mk in ((lambda t: t, lambda d: d), (lambda t: List[t], lambda d: [d]), (lambda t: Dict[str, t], lambda d: {"k": d}),
+                         (lambda t: Optional[t], lambda d: d)):
+            for d in bad:
+                for kw in ({}, {"coerce": True}):
+                    R.count("stdlib_invalid_probe")
+                    try:
+                        deserialize(wrap(T), mk(d), **kw)
+                    except ValidationError:
+                        pass
+                    except RecursionError:
+                        raise
+                    except Exception as e:   # noqa
+                        R.violation(f"deserialize({wrap(T)}, {mk(d)!r}{', coerce=True' if kw else ''}) raised {type(e).__name__}: "
+                                    f"{str(e)[:120]} instead of ValidationError", dict(type=str(wrap(T)), data=repr(mk(d)), options=kw))
+                        break
+                else:
+                    continue
+                break
+    # a class with several deserializers, the failing one wrapped with catch_value_error: its ValueError is a rejection too
+    import apischema.cache
+    from typing import Tuple
+    from apischema import deserializer
+    from apischema.conversions import Conversion, catch_value_error, reset_deserializers
+
+    class Version:
+        def __init__(self, parts):
+            self.parts = tuple(parts)
+
+    def parse_version(s: str) -> Version:
+        return Version(int(p) for p in s.split("."))          # ValueError on "1.x"
+
+    def version_from_parts(parts: List[int]) -> Version:
+        return Version(parts)
+    try:
+        deserializer(Conversion(catch_value_error(parse_version), source=str, target=Version))
+        deserializer(Conversion(version_from_parts, source=List[int], target=Version))
+        for wrap, mk in ((lambda t: t, lambda d: d), (lambda t: List[t], lambda d: [d]), (lambda t: Optional[t], lambda d: d)):
+            for d in ("1.x", "", "a", [1, "x"], 3, None, {}):
+                R.count("stdlib_invalid_probe:two_deserializers")
+                try:
+                    deserialize(wrap(Version), mk(d))
+                except ValidationError:
+                    pass
+                except Exception as e:   # noqa
+                    R.violation(f"deserialize({wrap(Version)}, {mk(d)!r}) raised {type(e).__name__}: {str(e)[:120]} instead of "
+                                "ValidationError (class with two deserializers, the first wrapped with catch_value_error)",
+                                dict(type=str(wrap(Version)), data=repr(mk(d))))
+                    break
+        if deserialize(Version, "1.2").parts != (1, 2) or deserialize(Version, [3]).parts != (3,):
+            R.violation("a class with two deserializers does not read its two forms", {})
+    finally:
+        reset_deserializers(Version)
+        apischema.cache.reset()
+    # primitives under coercion with numbers too large to be converted
+    from typing import Literal
+    for T in (str, int, float, bool, Literal["a"], Optional[str], List[str]):
+        for d in (10 ** 5000, -10 ** 5000, "9" * 5000, 1e308 * 10, [10 ** 5000]):
+            R.count("stdlib_invalid_probe:huge")
+            try:
+                deserialize(T, d, coerce=True)
+            except ValidationError:
+                pass
+            except Exception as e:   # noqa
+                R.violation(f"deserialize({T}, <a {type(d).__name__} of about 5000 digits>, coerce=True) raised "
+                            f"{type(e).__name__}: {str(e)[:100]} instead of ValidationError",
+                            dict(type=str(T), data=f"{type(d).__name__} with ~5000 digits"))
+    # required flattened / pattern / additional properties fields with invalid content under fall_back_on_default:
+    # there is no default to fall back on, the error has to come out (as a ValidationError)
+    mod = pyrun.exec_module(AGG_REQUIRED_SRC)
+    try:
+        for cls, d in ((mod.Flat, {"x": "a"}), (mod.Flat, {}), (mod.Pat, {"pa": "a"}), (mod.Add, {"za": "a"}),
+                       (mod.Flat, {"x": 1}), (mod.Pat, {"pa": 1}), (mod.Add, {"za": 1}), (mod.FlatDefault, {"x": "a"})):
+            for kw in ({}, {"fall_back_on_default": True}):
+                R.count("stdlib_invalid_probe:aggregate_required")
+                try:
+                    deserialize(cls, dict(d), **kw)
+                except ValidationError:
+                    pass
+                except Exception as e:   # noqa
+                    R.violation(f"deserialize({cls.__name__}, {d!r}{', fall_back_on_default=True' if kw else ''}) raised "
+                                f"{type(e).__name__}: {str(e)[:120]} instead of ValidationError",
+                                dict(source=AGG_REQUIRED_SRC, type=cls.__name__, data=d, options=kw))
+    finally:
+        pyrun.drop_module(mod)
+        apischema.cache.reset()
+
+
+AGG_REQUIRED_SRC = '''
+import re
+from dataclasses import dataclass, field
+from typing import Dict
+from apischema.metadata import flatten, properties
+
+@dataclass
+class Inner:
+    x: int
+
+@dataclass
+class Flat:
+    inner: Inner = field(metadata=flatten)
+
+@dataclass
+class FlatDefault:
+    inner: Inner = field(default_factory=lambda: Inner(7), metadata=flatten)
+
+@dataclass
+class Pat:
+    p: Dict[str, int] = field(metadata=properties(pattern=re.compile("^p")))
+
+@dataclass
+class Add:
+    r: Dict[str, int] = field(metadata=properties)
+'''
 
 
 def aggregate_probe(R, aspects=("dispatch", "schema"), n_classes=40, data_per_class=10):
@@ -1142,6 +1531,7 @@ def aggregate_probe(R, aspects=("dispatch", "schema"), n_classes=40, data_per_cl
     from apischema.json_schema import deserialization_schema
     rng = R.rng
     items, meta = [], []
+    m_items, m_meta = [], []
     PATS = ["x_", "x_a", "y"]
     for ci in range(n_classes):
         nn = rng.randint(1, 2)
@@ -1224,6 +1614,16 @@ def aggregate_probe(R, aspects=("dispatch", "schema"), n_classes=40, data_per_cl
                         back = deserialize(mod.C, out, aliaser=al, additional_properties=ap)
                         if back != v:
                             R.violation(f"a value with aggregate fields does not round-trip: {v!r} -> {out!r} -> {back!r}", info)
+                        # what each source emits, for the model of the merge (Small/AggregateRT.v, `merged`)
+                        e_kids = [sorted(serialize(getattr(mod, f"G{i}"), getattr(v, f"g{i}"), aliaser=al)) for i in range(nflat)]
+                        e_pk = [sorted(getattr(v, f"p{j}")) for j in range(npat)]
+                        e_extra = sorted(v.rest) if has_add else []
+                        agg_ = (f"(mkAgg {coq_list(map(coq_str, known))} {coq_list(coq_list(map(coq_str, fl)) for fl in flats)} "
+                                f"{coq_list(map(coq_str, pats))} {coq_bool(has_add)})")
+                        em_ = (f"(mkEm {coq_list(map(coq_str, known))} {coq_list(coq_list(map(coq_str, x)) for x in e_kids)} "
+                               f"{coq_list(coq_list(map(coq_str, x)) for x in e_pk)} {coq_list(map(coq_str, e_extra))})")
+                        m_items.append(f"({agg_}, {em_}, {coq_list(map(coq_str, sorted(out)))})")
+                        m_meta.append(dict(info, value=repr(v), output=out))
                     except Exception as e:   # noqa
                         R.violation(f"serialize / deserialize of a value with aggregate fields raised {type(e).__name__}: {e}", info)
                 if "ser_schema" in aspects and ok:
@@ -1294,12 +1694,27 @@ def aggregate_probe(R, aspects=("dispatch", "schema"), n_classes=40, data_per_cl
             R.violation("the keys of the datum are not dispatched as documented (model Small/Aggregate.v: regular properties, flattened "
                         "aliases, first matching pattern, the rest additional / unexpected)", meta[i])
         R.hist["aggregate_cases"] = len(items)
+    if m_items:
+        T = "agg * emitted * list string"
+        hdr = ("From Coq Require Import List String Bool.\nFrom AV Require Import Small.Aggregate Small.AggregateRT.\n"
+               "Import ListNotations.\nOpen Scope string_scope.\n")
+        bad, errs = core.run_coq_shards("aggregate_merge", hdr, m_items, "merge_case_ok", item_type=T, shard=300)
+        for k, e in errs:
+            R.broken.append(f"coq evaluation failed (aggregate_merge shard {k}): {e[-300:]}")
+        for i in bad[:4]:
+            R.violation("the keys of the serialized object are not the union of what its sources emit (model Small/AggregateRT.v: "
+                        "regular properties, flattened objects, pattern / additional dicts)", m_meta[i])
+        nohyp, errs = core.run_coq_shards("aggregate_merge_hyps", hdr, m_items, "merge_case_hyps", item_type=T, shard=300)
+        for k, e in errs:
+            R.broken.append(f"coq evaluation failed (aggregate_merge_hyps shard {k}): {e[-300:]}")
+        R.hist["aggregate_merge_cases"] = len(m_items)
+        R.hist["C05_aggregate_hyps"] = len(m_items) - len(nohyp)
 
 
 EDGE_SRC = '''
 import re
 from dataclasses import dataclass, field
-from typing import Dict, NewType
+from typing import Annotated, Dict, Generic, List, NewType, Optional, TypeVar
 from apischema import schema
 from apischema.metadata import conversion, properties
 
@@ -1331,6 +1746,34 @@ schema(pattern="^k")(Key)
 class KeyedRest:                       # additional properties whose key type is constrained
     n: int = 0
     rest: Dict[Key, int] = field(default_factory=dict, metadata=properties)
+
+class Code(str):                       # subclasses of primitive types carrying constraints
+    pass
+schema(min_len=2, pattern="^c")(Code)
+
+class Port(int):
+    pass
+schema(min=1, max=10)(Port)
+
+@dataclass
+class Endpoint:
+    code: Code
+    port: Port = Port(1)
+    short: Annotated[Code, schema(max_len=3)] = Code("cc")
+
+T = TypeVar("T")
+
+@schema(min_props=1, max_props=2)
+@dataclass
+class Patch(Generic[T]):               # class-level object constraints on a generic class, used specialised
+    a: Optional[T] = None
+    b: Optional[T] = None
+    c: Optional[int] = None
+
+@dataclass
+class Patches:
+    one: Patch[str]
+    many: List[Patch[int]] = field(default_factory=list)
 '''
 
 
@@ -1343,6 +1786,7 @@ def schema_edge_probe(R):
     from apischema import deserialize, ValidationError
     from apischema.json_schema import deserialization_schema
     apischema.cache.reset()
+    from typing import Dict, List
     mod = pyrun.exec_module(EDGE_SRC)
     cases = [
         (mod.TwoPatterns, {"ab": 1}, "overlapping-pattern-properties"), (mod.TwoPatterns, {"ax": 1}, None),
@@ -1353,11 +1797,21 @@ def schema_edge_probe(R):
         (mod.ConvertedField, {"x": "s"}, None), (mod.ConvertedField, {}, None),
         (mod.KeyedRest, {"n": 1, "zz": 2}, "additional-properties-key-constraints"), (mod.KeyedRest, {"n": 1, "kz": 2}, None),
         (mod.KeyedRest, {"kz": "s"}, None), (mod.KeyedRest, {"n": "s"}, None),
+        (mod.Code, "c", None), (mod.Code, "cx", None), (mod.Code, "xx", None), (mod.Code, 3, None), (mod.Port, 0, None),
+        (mod.Port, 5, None), (mod.Port, 11, None), (mod.Port, "5", None), (mod.Endpoint, {"code": "c"}, None),
+        (mod.Endpoint, {"code": "cd", "port": 11}, None), (mod.Endpoint, {"code": "cd", "port": 2, "short": "cdef"}, None),
+        (mod.Endpoint, {"code": "cd", "port": 2, "short": "cde"}, None), (List[mod.Code], ["cd", "c"], None),
+        (Dict[str, mod.Port], {"k": 0}, None), (Dict[mod.Code, int], {"c": 1}, None), (Dict[mod.Code, int], {"cd": 1}, None),
+        (mod.Patch[str], {}, None), (mod.Patch[str], {"a": "x"}, None), (mod.Patch[str], {"a": "x", "b": "y", "c": 1}, None),
+        (mod.Patch[str], {"a": 1}, None), (mod.Patch, {}, None), (mod.Patch, {"a": 1, "b": 2, "c": 3}, None),
+        (mod.Patches, {"one": {}}, None), (mod.Patches, {"one": {"a": "x"}, "many": [{"c": 1}, {}]}, None),
+        (mod.Patches, {"one": {"a": "x"}, "many": [{"a": 1, "b": 2}]}, None),
     ]
     try:
         for tp, d, tag in cases:
             R.count("schema_edge_probe")
-            info = dict(source=EDGE_SRC, type=tp.__name__, data=d)
+            tp_name = getattr(tp, "__name__", None) or str(tp)
+            info = dict(source=EDGE_SRC, type=tp_name, data=d)
             try:
                 deserialize(tp, copy.deepcopy(d))
                 acc = True
@@ -1367,10 +1821,10 @@ def schema_edge_probe(R):
                 doc = deserialization_schema(tp)
                 valid = jsonschema.Draft202012Validator(doc).is_valid(d)
             except Exception as e:   # noqa
-                R.violation(f"deserialization_schema({tp.__name__}): {type(e).__name__}: {e}", info)
+                R.violation(f"deserialization_schema({tp_name}): {type(e).__name__}: {e}", info)
                 continue
             if acc != valid and not (tag and R.known_match(tag)):
-                R.violation(f"deserialize {'accepts' if acc else 'rejects'} {d!r} for {tp.__name__} but its schema says {valid}",
+                R.violation(f"deserialize {'accepts' if acc else 'rejects'} {d!r} for {tp_name} but its schema says {valid}",
                             dict(info, schema=doc))
     finally:
         pyrun.drop_module(mod)
